@@ -13,6 +13,8 @@ import (
 func init() { register("C17", checkC17) }
 
 func checkC17(p *Prog, r *Report) {
+	r.rule("C17.field-loops: every loop bounded by NumField() in Wrap, BuildType, Check and the Wrapper's methods visits fields 0 … NumField()-1, so the wrapper reports every declared field (shared with C20)")
+	checkFieldLoopsFull(p, r, "C17")
 	r.rule("R1 kind table: zero values (typed nil pointers for nullable kinds), name tables and %T classification (see C01), and the Set gate of SoftResource on kind and nullability")
 	r.rule("C17.zero-fill: SoftResource.check stores, for every attribute without a value, GetZeroValue(<that attribute's kind>, <that attribute's nullability>), and for every relationship without a value \"\" when it is to-one and an empty []string otherwise")
 	r.rule("C17.get-returns-stored: SoftResource.Get returns GetID() for \"id\", the value found in the data map under the key for fields of the type, and nil otherwise - nothing is transformed on the way out")
